@@ -254,6 +254,7 @@ COMPONENTS = {
                'thorough': [{'cfg': 'MC_Bulkhead.cfg', 'module': 'MC_Bulkhead'}]},
         'gen': {'cfg': 'Gen_Bulkhead.cfg', 'module': 'MC_Bulkhead', 'num': {'quick': 400, 'thorough': 5000}, 'depth': 40},
         'trace_module': 'Trace_Bulkhead', 'trace_cfg_tmpl': 'Trace_Bulkhead.cfg.tmpl',
+        'tour': {'cfg': 'Tour_Bulkhead.cfg', 'module': 'MC_Bulkhead', 'n': {'quick': 1200, 'thorough': 25000}},
         'harness': 'bulkhead',
         'random': {'quick': [{'runs': 1500}], 'thorough': [{'runs': 20000}, {'runs': 5000, 'size': 'quick'}]},
         'corrupt': _bulkhead_corrupt,
@@ -264,6 +265,7 @@ COMPONENTS = {
                'thorough': [{'cfg': 'MC_RateLimiter_t.cfg', 'module': 'MC_RateLimiter'}]},
         'gen': {'cfg': 'Gen_RateLimiter.cfg', 'module': 'MC_RateLimiter', 'num': {'quick': 400, 'thorough': 5000}, 'depth': 40},
         'trace_module': 'Trace_RateLimiter', 'trace_cfg_tmpl': 'Trace_RateLimiter.cfg.tmpl',
+        'tour': {'cfg': 'Tour_RateLimiter.cfg', 'module': 'MC_RateLimiter', 'n': {'quick': 1200, 'thorough': 25000}},
         'harness': 'ratelimiter',
         'random': {'quick': [{'runs': 1500}], 'thorough': [{'runs': 20000}, {'runs': 5000, 'size': 'quick'}]},
         'corrupt': _rl_corrupt,
@@ -274,6 +276,7 @@ COMPONENTS = {
                'thorough': [{'cfg': 'MC_CB_seq.cfg', 'module': 'MC_CircuitBreaker', 'timeout': 3000}, {'cfg': 'MC_CB_conc_t.cfg', 'module': 'MC_CircuitBreaker', 'timeout': 3000}]},
         'gen': {'cfg': 'Gen_CB_conc.cfg', 'module': 'MC_CircuitBreaker', 'num': {'quick': 400, 'thorough': 5000}, 'depth': 45},
         'trace_module': 'Trace_CircuitBreaker', 'trace_cfg_tmpl': 'Trace_CircuitBreaker.cfg.tmpl',
+        'tour': {'cfg': 'Tour_CB.cfg', 'module': 'MC_CircuitBreaker', 'n': {'quick': 1200, 'thorough': 25000}, 'args': ['--variant', 'conc']},
         'harness': 'circuitbreaker',
         'random': {'quick': [{'runs': 1500, 'args': ['--variant', 'conc']}], 'thorough': [{'runs': 20000, 'args': ['--variant', 'conc']}]},
         'corrupt': _cb_corrupt,
@@ -299,6 +302,7 @@ COMPONENTS = {
         'mc': {'quick': [{'cfg': 'MC_Adaptive_q.cfg', 'module': 'MC_Adaptive'}], 'thorough': [{'cfg': 'MC_Adaptive.cfg', 'module': 'MC_Adaptive'}]},
         'gen': {'cfg': 'Gen_Adaptive.cfg', 'module': 'MC_Adaptive', 'num': {'quick': 300, 'thorough': 4000}, 'depth': 40},
         'trace_module': 'Trace_Adaptive', 'trace_cfg_tmpl': 'Trace_Adaptive.cfg.tmpl',
+        'tour': {'cfg': 'Tour_Adaptive.cfg', 'module': 'MC_Adaptive', 'n': {'quick': 1200, 'thorough': 25000}},
         'harness': 'adaptive',
         'random': {'quick': [{'runs': 1200}], 'thorough': [{'runs': 15000}]},
         'corrupt': _adaptive_corrupt,
@@ -308,6 +312,7 @@ COMPONENTS = {
         'mc': {'quick': [{'cfg': 'MC_Retry_q.cfg', 'module': 'MC_Retry'}], 'thorough': [{'cfg': 'MC_Retry.cfg', 'module': 'MC_Retry'}]},
         'gen': {'cfg': 'Gen_Retry.cfg', 'module': 'MC_Retry', 'num': {'quick': 400, 'thorough': 5000}, 'depth': 50},
         'trace_module': 'Trace_Retry', 'trace_cfg_tmpl': 'Trace_Retry.cfg.tmpl',
+        'tour': {'cfg': 'Tour_Retry.cfg', 'module': 'MC_Retry', 'n': {'quick': 1200, 'thorough': 25000}},
         'harness': 'retry',
         'random': {'quick': [{'runs': 1500}], 'thorough': [{'runs': 20000}]},
         'corrupt': _retry_corrupt,
@@ -325,6 +330,7 @@ COMPONENTS = {
         'mc': {'quick': [{'cfg': 'MC_Reconnect_q.cfg', 'module': 'MC_Reconnect'}], 'thorough': [{'cfg': 'MC_Reconnect.cfg', 'module': 'MC_Reconnect'}]},
         'gen': {'cfg': 'Gen_Reconnect.cfg', 'module': 'MC_Reconnect', 'num': {'quick': 400, 'thorough': 5000}, 'depth': 50},
         'trace_module': 'Trace_Reconnect', 'trace_cfg_tmpl': 'Trace_Reconnect.cfg.tmpl',
+        'tour': {'cfg': 'Tour_Reconnect.cfg', 'module': 'MC_Reconnect', 'n': {'quick': 1200, 'thorough': 25000}},
         'harness': 'reconnect',
         'random': {'quick': [{'runs': 1500}], 'thorough': [{'runs': 20000}]},
         'corrupt': _reconnect_corrupt,
@@ -334,6 +340,7 @@ COMPONENTS = {
         'mc': {'quick': [{'cfg': 'MC_TimeLimiter_q.cfg', 'module': 'MC_TimeLimiter'}], 'thorough': [{'cfg': 'MC_TimeLimiter.cfg', 'module': 'MC_TimeLimiter'}]},
         'gen': {'cfg': 'Gen_TimeLimiter.cfg', 'module': 'MC_TimeLimiter', 'num': {'quick': 400, 'thorough': 5000}, 'depth': 40},
         'trace_module': 'Trace_TimeLimiter', 'trace_cfg_tmpl': 'Trace_TimeLimiter.cfg.tmpl',
+        'tour': {'cfg': 'Tour_TimeLimiter.cfg', 'module': 'MC_TimeLimiter', 'n': {'quick': 1200, 'thorough': 25000}},
         'harness': 'timelimiter',
         'random': {'quick': [{'runs': 2000}], 'thorough': [{'runs': 30000}]},
         'corrupt': _tl_corrupt,
@@ -343,6 +350,7 @@ COMPONENTS = {
         'mc': {'quick': [{'cfg': 'MC_Hedge_q.cfg', 'module': 'MC_Hedge'}], 'thorough': [{'cfg': 'MC_Hedge.cfg', 'module': 'MC_Hedge'}]},
         'gen': {'cfg': 'Gen_Hedge.cfg', 'module': 'MC_Hedge', 'num': {'quick': 500, 'thorough': 6000}, 'depth': 40},
         'trace_module': 'Trace_Hedge', 'trace_cfg_tmpl': 'Trace_Hedge.cfg.tmpl',
+        'tour': {'cfg': 'Tour_Hedge.cfg', 'module': 'MC_Hedge', 'n': {'quick': 1200, 'thorough': 25000}},
         'harness': 'hedge',
         'random': {'quick': [{'runs': 2000}], 'thorough': [{'runs': 30000}]},
         'corrupt': _hedge_corrupt,
@@ -352,6 +360,7 @@ COMPONENTS = {
         'mc': {'quick': [{'cfg': 'MC_Cache_q.cfg', 'module': 'MC_Cache'}], 'thorough': [{'cfg': 'MC_Cache_t.cfg', 'module': 'MC_Cache', 'timeout': 3000}]},
         'gen': {'cfg': 'Gen_Cache.cfg', 'module': 'MC_Cache', 'num': {'quick': 400, 'thorough': 5000}, 'depth': 60},
         'trace_module': 'Trace_Cache', 'trace_cfg_tmpl': 'Trace_Cache.cfg.tmpl',
+        'tour': {'cfg': 'Tour_Cache.cfg', 'module': 'MC_Cache', 'n': {'quick': 1200, 'thorough': 25000}},
         'harness': 'cache',
         'random': {'quick': [{'runs': 1200}], 'thorough': [{'runs': 15000}]},
         'corrupt': _cache_corrupt,
@@ -361,6 +370,7 @@ COMPONENTS = {
         'mc': {'quick': [{'cfg': 'MC_Coalesce_q.cfg', 'module': 'MC_Coalesce'}], 'thorough': [{'cfg': 'MC_Coalesce.cfg', 'module': 'MC_Coalesce'}]},
         'gen': {'cfg': 'Gen_Coalesce.cfg', 'module': 'MC_Coalesce', 'num': {'quick': 400, 'thorough': 5000}, 'depth': 45},
         'trace_module': 'Trace_Coalesce', 'trace_cfg_tmpl': 'Trace_Coalesce.cfg.tmpl',
+        'tour': {'cfg': 'Tour_Coalesce.cfg', 'module': 'MC_Coalesce', 'n': {'quick': 1200, 'thorough': 25000}},
         'harness': 'coalesce',
         'random': {'quick': [{'runs': 2000}], 'thorough': [{'runs': 30000}]},
         'corrupt': _coalesce_corrupt,
@@ -386,6 +396,7 @@ COMPONENTS = {
         'mc': {'quick': [{'cfg': 'MC_Fallback.cfg', 'module': 'MC_Fallback'}], 'thorough': [{'cfg': 'MC_Fallback.cfg', 'module': 'MC_Fallback'}]},
         'gen': {'cfg': 'Gen_Fallback.cfg', 'module': 'MC_Fallback', 'num': {'quick': 500, 'thorough': 5000}, 'depth': 30},
         'trace_module': 'Trace_Fallback', 'trace_cfg_tmpl': 'Trace_Fallback.cfg.tmpl',
+        'tour': {'cfg': 'Tour_Fallback.cfg', 'module': 'MC_Fallback', 'n': {'quick': 1200, 'thorough': 25000}},
         'harness': 'fallback',
         'random': {'quick': [{'runs': 1500}], 'thorough': [{'runs': 20000}]},
         'corrupt': _fallback_corrupt,
